@@ -22,7 +22,10 @@ VENV_PY = os.environ.get("SYMX_VENV_PY", "/venv/bin/python")
 
 class Case:
     def __init__(self, name, fn, params=None, replay=None, witness=None, bounds=None, stubs=(), assumptions=(),
-                 max_paths=200000, timeout_s=None, env=None, functions=(), max_witness=None, shards=1, shard_depth=6):
+                 max_paths=200000, timeout_s=None, env=None, functions=(), max_witness=None, shards=1, shard_depth=6,
+                 fast_ms=None, ack_first=False):
+        self.fast_ms = fast_ms
+        self.ack_first = ack_first
         self.name = name
         self.fn = fn
         self.params = params or {}
@@ -51,7 +54,7 @@ def _run_case(args):
         res["case"] = case.name
         deadline = t0 + case.timeout_s if case.timeout_s else None
         ex = core.Explorer(max_paths=case.max_paths, query_timeout_ms=qt, want_witness=bool(case.witness), deadline=deadline,
-                           shard=shard)
+                           shard=shard, fast_ms=case.fast_ms, ack_first=case.ack_first)
         from .shims import numpy_shim, misc_shim
 
         def wrapped(ex_, **p):
@@ -73,6 +76,10 @@ def _run_case(args):
     except BaseException as e:  # noqa
         res["error"] = "%s: %s\n%s" % (type(e).__name__, e, traceback.format_exc()[-3000:])
     res["wall_s"] = round(time.time() - t0, 2)
+    if os.environ.get("SYMX_PROGRESS"):
+        st = res.get("stats") or {}
+        sys.stderr.write("[case done] %s shard=%s wall=%.1fs paths=%s unknown=%s fallbacks=%s %s\n" % (
+            res.get("case"), shard, res["wall_s"], st.get("paths"), st.get("unknown"), st.get("fallbacks"), (res.get("error") or "")[:200]))
     return res
 
 
@@ -87,7 +94,7 @@ def _driver(requests, env):
         json.dump(requests, f)
     e = dict(os.environ)
     e.update(env)
-    e["PYTHONPATH"] = "/repo" + os.pathsep + VERIF
+    e["PYTHONPATH"] = os.environ.get("SYMX_REPO", "/repo") + os.pathsep + VERIF
     e.setdefault("NUMBA_NUM_THREADS", "4")
     try:
         p = subprocess.run([VENV_PY, os.path.join(VERIF, "impl_replay", "driver.py"), path], env=e, capture_output=True,
